@@ -73,6 +73,7 @@ Definition bcompress (pd : bpdesc) (r : brule) (direction : option dir) : res bu
   | NoCompression =>
     do body <- badd_all s0 (map bf_val (bpd_fields pd)) ;;
     b_add body (bpd_payload pd)
+  | Fragmentation => Ok s0              (* neither branch of the if/elif: the empty buffer + the rule id *)
   end.
 
 (* ---- decompressor (field extraction and concatenation; no compute fields) -------------------- *)
